@@ -9,6 +9,7 @@ def main (args : List String) : IO UInt32 := do
   | ["model", dump, start, out] => ZeepVerif.Driver.Gen.main dump start out
   | ["modelbatch"] => ZeepVerif.Driver.Gen.batch
   | ["shapes", dump] => ZeepVerif.Driver.Gen.shapes dump
+  | ["progof", dump, start] => ZeepVerif.Driver.YaDrv.progofMain dump start
   | ["ya"] => ZeepVerif.Driver.YaDrv.main; return 0
   | ["http"] => ZeepVerif.Driver.HttpDrv.main; return 0
   | _ => IO.eprintln "usage: zvdrv c06 < lines"; return 2
